@@ -1,6 +1,7 @@
 package mon
 
 import (
+	"reflect"
 	"bufio"
 	"encoding/json"
 	"fmt"
@@ -167,6 +168,9 @@ func InnerKind(err error) string {
 	}
 	if _, ok := err.(interface{ Unwrap() []error }); ok {
 		return "joined"
+	}
+	if t := reflect.TypeOf(err); t != nil && t.Name() == "errList" {
+		return "nested"
 	}
 	return "other"
 }
